@@ -35,6 +35,7 @@ EXPLANATION = (
     "producer; (R5) element keys are injective (shared with C07-E1)."
     ' (R6) the solved flag is reset for every row before the input check (shared with C04-G6).'
     ' (R7) every molecule of the shipped reagent templates parses.'
+    ' (R3, path) the final validation is completed on every path of __run_pipeline from a stage that rewrites possibly-solved rows to the exit, exception edges into fall-through handlers included.'
 )
 ASSUMPTIONS = [
     "RDKit's counts are the true composition (C07 behavioural part, not decided)",
